@@ -334,48 +334,48 @@ example : '\n' ∉ dumps ⟨[','], [':'], true, false⟩ (fun _ => ['1', '.', '5
     (.obj [(lit "a\n", .arr [.str [10, 0x2028], .float (.fin 3 (-1))])]) :=
   (dumps_no_newline _ _ ⟨by decide, by decide, rfl, rfl⟩ (fun _ => by decide) _).1
 
-/-- every `*_message` output (single message or batch, error replies included) is one line of
-printable ASCII -/
-theorem message_one_line (cfg : DumpCfg) (fr : F → List Char) (hc : cfg.ok)
-    (hf : ∀ f, allPr (fr f)) (r : Reply) :
-    allPr (r.bytes cfg fr) ∧ '\n' ∉ r.bytes cfg fr := by
-  have h : allPr (r.bytes cfg fr) := by
+/-- every `*_message` output (single message or batch, error replies included) is one line:
+printable ASCII (plus, in a batch, whatever blanks the separator has), no newline -/
+theorem message_one_line (cfg : DumpCfg) (sep : List Char) (fr : F → List Char) (hc : cfg.ok)
+    (hsep : sepOK sep = true) (hf : ∀ f, allPr (fr f)) (r : Reply) :
+    allLine (r.bytes cfg sep fr) ∧ '\n' ∉ r.bytes cfg sep fr ∧ '\r' ∉ r.bytes cfg sep fr := by
+  have h : allLine (r.bytes cfg sep fr) := by
     cases r with
-    | single p => exact allPr_dumps cfg fr hc hf p
+    | single p => exact (allPr_dumps cfg fr hc hf p).line
     | batch ps =>
-      apply allPr_batchFromParts
+      apply allLine_batchFromParts sep hsep
       intro s hs
       obtain ⟨p, _, rfl⟩ := List.mem_map.1 hs
       exact allPr_dumps cfg fr hc hf p
-  exact ⟨h, fun hm => by have := h _ hm; simp [not_pr_newline] at this⟩
+  exact ⟨h, allLine_no_newline h⟩
 
-/-- `batch_message` is `[` + the member messages joined with `", "` + `]` -/
-theorem batch_message_join (parts : List (List Char)) :
-    batchFromParts parts = '[' :: (List.intercalate [',', ' '] parts ++ [']']) := by
+/-- `batch_message` is `[` + the member messages joined with the separator + `]` -/
+theorem batch_message_join (sep : List Char) (parts : List (List Char)) :
+    batchFromParts sep parts = '[' :: (List.intercalate sep parts ++ [']']) := by
   simp [batchFromParts, joinWith_eq_intercalate]
 
 /-! ## Message level: through `json.dumps` / `json.loads` (laws L1, L1b) -/
 
 /-- the stdlib pair as a parameter: `dumps` is the serializer model with *some* float rendering,
 `loads` is only known through the two laws -/
-structure Ser (cfg : DumpCfg) where
+structure Ser (cfg : DumpCfg) (sep : List Char) where
   fr : F → List Char
   loads : List Char → LoadsOutcome
   /-- L1: `json.loads(json.dumps(v)) == v` for JSON-representable `v` -/
   L1 : ∀ v : J, v.wf = true → loads (dumps cfg fr v) = .value v
   /-- L1b: the batch framing `[a, b, …]` parses to the list of the parts -/
   L1b : ∀ vs : List J, vs ≠ [] → (∀ v ∈ vs, v.wf = true) →
-    loads (batchFromParts (vs.map (dumps cfg fr))) = .value (.arr vs)
+    loads (batchFromParts sep (vs.map (dumps cfg fr))) = .value (.arr vs)
 
 /-- decoding the bytes of an encoded payload is decoding the payload -/
-theorem message_level (cfg : DumpCfg) (S : Ser cfg) (g : PayloadGuards) (P : Proto) (p : J)
+theorem message_level (cfg : DumpCfg) {sep : List Char} (S : Ser cfg sep) (g : PayloadGuards) (P : Proto) (p : J)
     (hwf : p.wf = true) :
     messageToItem g P (S.loads (dumps cfg S.fr p)) = payloadToItem P p := by
   rw [S.L1 p hwf]; rfl
 
-theorem message_level_batch (cfg : DumpCfg) (S : Ser cfg) (g : PayloadGuards) (P : Proto)
+theorem message_level_batch (cfg : DumpCfg) {sep : List Char} (S : Ser cfg sep) (g : PayloadGuards) (P : Proto)
     (ps : List J) (hne : ps ≠ []) (hwf : ∀ p ∈ ps, p.wf = true) :
-    messageToItem g P (S.loads (batchFromParts (ps.map (dumps cfg S.fr))))
+    messageToItem g P (S.loads (batchFromParts sep (ps.map (dumps cfg S.fr))))
       = payloadToItem P (.arr ps) := by
   rw [S.L1b ps hne hwf]; rfl
 
@@ -413,7 +413,7 @@ theorem errorPayload_wf (P : Proto) (code : J) (msg : Str) (rid : J) (hc : code.
       lookup_nil, hc, hm, hr, kResult, kError, kId, kJsonrpc, kCode, kMessage, s20]
 
 /-- **round trip through the bytes** (2.0 / Loose / AutoDetect): request -/
-theorem roundtrip_request_message (cfg : DumpCfg) (S : Ser cfg) (g : PayloadGuards) (P : Proto)
+theorem roundtrip_request_message (cfg : DumpCfg) {sep : List Char} (S : Ser cfg sep) (g : PayloadGuards) (P : Proto)
     (hP : P ≠ .v1) (m : Str) (args rid : J) (hargs : Args args) (hrid : ReqId rid)
     (hm : strWf m = true) (ha : args.wf = true) (hr : rid.wf = true) :
     ∃ p, requestPayload P m args rid = .ok p
@@ -421,7 +421,7 @@ theorem roundtrip_request_message (cfg : DumpCfg) (S : Ser cfg) (g : PayloadGuar
   obtain ⟨p, h1, _, h3⟩ := roundtrip_request P hP m args rid hargs hrid
   exact ⟨p, h1, by rw [message_level cfg S g P p (requestPayload_wf P m args rid p h1 hm ha hr), h3]⟩
 
-theorem roundtrip_notification_message (cfg : DumpCfg) (S : Ser cfg) (g : PayloadGuards)
+theorem roundtrip_notification_message (cfg : DumpCfg) {sep : List Char} (S : Ser cfg sep) (g : PayloadGuards)
     (P : Proto) (hP : P ≠ .v1) (m : Str) (args : J) (hargs : Args args)
     (hm : strWf m = true) (ha : args.wf = true) :
     ∃ p, requestPayload P m args .null = .ok p
@@ -429,13 +429,13 @@ theorem roundtrip_notification_message (cfg : DumpCfg) (S : Ser cfg) (g : Payloa
   obtain ⟨p, h1, _, h3⟩ := roundtrip_notification P hP m args hargs
   exact ⟨p, h1, by rw [message_level cfg S g P p (requestPayload_wf P m args .null p h1 hm ha rfl), h3]⟩
 
-theorem roundtrip_result_message (cfg : DumpCfg) (S : Ser cfg) (g : PayloadGuards) (P : Proto)
+theorem roundtrip_result_message (cfg : DumpCfg) {sep : List Char} (S : Ser cfg sep) (g : PayloadGuards) (P : Proto)
     (hP : P ≠ .v1) (v rid : J) (hrid : RespId rid) (hv : v.wf = true) (hr : rid.wf = true) :
     messageToItem g P (S.loads (dumps cfg S.fr (responsePayload P v rid)))
       = .ok (.response (.result v), rid) := by
   rw [message_level cfg S g P _ (responsePayload_wf P v rid hv hr), roundtrip_result P hP v rid hrid]
 
-theorem roundtrip_error_message (cfg : DumpCfg) (S : Ser cfg) (g : PayloadGuards) (P : Proto)
+theorem roundtrip_error_message (cfg : DumpCfg) {sep : List Char} (S : Ser cfg sep) (g : PayloadGuards) (P : Proto)
     (hP : P ≠ .v1) (code : J) (msg : Str) (rid : J) (hcode : code.isInt = true) (hrid : RespId rid)
     (hm : strWf msg = true) (hr : rid.wf = true) :
     messageToItem g P (S.loads (dumps cfg S.fr (errorPayload P code (.str msg) rid)))
@@ -445,7 +445,7 @@ theorem roundtrip_error_message (cfg : DumpCfg) (S : Ser cfg) (g : PayloadGuards
     roundtrip_error P hP code msg rid hcode hrid]
 
 /-- 1.0 through the bytes: results (any result, any id) and requests (any non-null id) -/
-theorem roundtrip_v1_message (cfg : DumpCfg) (S : Ser cfg) (g : PayloadGuards) (m : Str)
+theorem roundtrip_v1_message (cfg : DumpCfg) {sep : List Char} (S : Ser cfg sep) (g : PayloadGuards) (m : Str)
     (xs : List J) (v rid : J) (hm : strWf m = true) (hx : (J.arr xs).wf = true)
     (hv : v.wf = true) (hr : rid.wf = true) :
     messageToItem g .v1 (S.loads (dumps cfg S.fr (responsePayload .v1 v rid)))
@@ -497,8 +497,9 @@ theorem facts_allow_batches : ∀ P : Proto, Facts.C04.allowBatches P = P.allowB
 theorem facts_dumps_cfg : Facts.C04.dumpCfg.ok :=
   ⟨by decide, by decide, by decide, by decide⟩
 
+/-- the separator `batch_message_from_parts` joins with keeps the batch a one-line JSON array -/
 theorem facts_batch_join :
-    Facts.C04.batchJoin = [',', ' '] ∧ Facts.C04.batchWrapIsBrackets = true := by decide
+    sepOK Facts.C04.batchJoin = true ∧ Facts.C04.batchWrapIsBrackets = true := by decide
 
 theorem facts_class_wiring : Facts.C04.classWiringAsModelled = true := by decide
 
